@@ -901,11 +901,13 @@ class ExprMixin:
         finally:
             self.nofork -= 1
             fr.locals = saved_locals
-            new_iv = self.store.iv
+            inner = self.store
             self.store = saved_store
-            for s, b in new_iv.items():
+            decl = inner.__dict__.get('decl', {})
+            for s, b in inner.iv.items():
                 if s not in self.store.iv:
-                    self.store.iv[s] = [None, None] if filtered else b
+                    lo, hi = decl.get(s, (None, None)) if filtered else (b[0], b[1])
+                    self.store.declare(s, lo, hi, info=inner.info.get(s))
         pend, self.pending_raises = self.pending_raises, []
         if not self.nofork:
             seen = set()
